@@ -393,7 +393,7 @@ func baseConstructor(typeName, structName string) string {
 	}
 
 	if strings.HasPrefix(typeName, "map[") {
-		if idx := strings.LastIndex(typeName, "]"); idx != -1 && idx < len(typeName)-1 {
+		if idx := mapKeyEnd(typeName); idx != -1 && idx < len(typeName)-1 {
 			valType := typeName[idx+1:]
 			clean := strings.TrimPrefix(valType, "*")
 			if structName != "" && clean == structName {
@@ -417,6 +417,25 @@ func baseConstructor(typeName, structName string) string {
 		return fmt.Sprintf("gozod.FromStruct[%s]()", typeName)
 	}
 	return "gozod.Any()"
+}
+
+// mapKeyEnd returns the index of the bracket that closes the key type of a
+// map type name ("map[K]V"), or -1. The value type may contain brackets of
+// its own (map[string][]int), so the last bracket is not the right one.
+func mapKeyEnd(typeName string) int {
+	depth := 0
+	for i := len("map"); i < len(typeName); i++ {
+		switch typeName[i] {
+		case '[':
+			depth++
+		case ']':
+			depth--
+			if depth == 0 {
+				return i
+			}
+		}
+	}
+	return -1
 }
 
 // basicTypeConstructor returns the GoZod constructor for a basic Go type.
